@@ -96,10 +96,31 @@ pub struct Cx<'a, H> {
     pub arena: &'a Arena,
 }
 
+thread_local! {
+    static CLONE_NODES: std::cell::Cell<bool> = const { std::cell::Cell::new(false) };
+}
+
+/// While on, every combinator node is built, cloned through its own (hand-written) `Clone` impl,
+/// the original dropped, and only the clone is kept: the resulting parser consists of clones only.
+/// C13 requires it to behave exactly like the normally built one.
+pub fn set_clone_nodes(on: bool) {
+    CLONE_NODES.with(|c| c.set(on));
+}
+pub fn clone_nodes() -> bool {
+    CLONE_NODES.with(|c| c.get())
+}
+
 macro_rules! erase_boxed {
-    ($cx:expr, $p:expr) => {
-        Parser::boxed($p)
-    };
+    ($cx:expr, $p:expr) => {{
+        let p = $p;
+        if clone_nodes() {
+            let q = p.clone();
+            drop(p);
+            Parser::boxed(q)
+        } else {
+            Parser::boxed(p)
+        }
+    }};
 }
 macro_rules! erase_sync {
     ($cx:expr, $p:expr) => {
